@@ -177,3 +177,59 @@ func VerifHarness_C19_allocate_even_port() {
 	vCover(vIsSuccess(r2), "C19.cover_even_port_retransmit")
 	vReach("end")
 }
+
+// The relayed address reported by an Allocate success is one at which a peer's datagram really reaches this
+// allocation: a datagram arriving on the socket that carries the reported address, from a permitted peer, is
+// handed to the allocating client (and to nobody else) as a Data indication naming that peer.
+//
+//verif:props=C19,C02 replay=model unwind=20 bounds="one Allocate (UDP transport, arbitrary credential verdicts, IPv4 client); a second client's allocation on the same manager; then one datagram (0..4 bytes) on the relay socket whose address was reported, from a permitted IPv4 peer"
+func VerifHarness_C19_relayed_address_reaches_the_allocation() {
+	s := vNewSrv(false, false)
+	other := allocation.VUDPAddr4()
+	src := allocation.VUDPAddr4()
+	vAssume(!allocation.VSameUDP(src, other))
+	b := s.alloc(other, "someone-else")
+	setters := append([]stun.Setter{vRawAttr{stun.AttrRequestedTransport, []byte{17, 0, 0, 0}}}, vCreds()...)
+	msg := vNewMsg(stun.MethodAllocate, stun.ClassRequest, setters...)
+	req := s.request(src)
+	_ = handleAllocateRequest(req, msg)
+	r := s.response(req, msg, stun.MethodAllocate)
+	vAssume(vIsSuccess(r))
+	var xr proto.RelayedAddress
+	vAssume(xr.GetFrom(r) == nil)
+	ft := &allocation.FiveTuple{SrcAddr: src, DstAddr: s.conn.LocalAddr(), Protocol: allocation.UDP}
+	a := s.env.M.GetAllocation(ft)
+	vAssume(a != nil)
+	// find the socket that carries the reported relayed address
+	var sock *allocation.VPacketConn
+	n := 0
+	for _, pc := range s.env.Relays {
+		la := pc.Local.(*net.UDPAddr)
+		if vAnd(vIPEq(la.IP, xr.IP), la.Port == xr.Port) {
+			sock = pc
+			n++
+		}
+	}
+	vAssert(sock != nil, "C19.reported_relayed_address_is_a_socket_the_server_opened")
+	vAssume(sock != nil)
+	peer := allocation.VUDPAddr4()
+	a.AddPermission(allocation.NewPermission(peer, &allocation.VLogger{}, s.pt))
+	data := vBytes(4)
+	s.conn.Writes = nil
+	sock.Script = []allocation.VDatagram{{Data: data, From: peer}}
+	// run the relay goroutine that reads this socket
+	for i := 0; i < vSpawnCount(); i++ {
+		if !vSpawnStarted(i) {
+			vRunSpawn(i)
+		}
+	}
+	vYield()
+	vAssert(len(s.conn.Writes) == 1, "C19.datagram_to_the_reported_address_reaches_the_client")
+	if len(s.conn.Writes) == 1 {
+		w := s.conn.Writes[0]
+		vAssert(w.Addr == net.Addr(src), "C19.and_only_the_allocating_client")
+		vAssert(w.Addr == net.Addr(src), "C02.relayed_only_to_the_owner")
+	}
+	_, _ = n, b
+	vReach("end")
+}
